@@ -318,7 +318,7 @@ fn block_term(stmts: &[Stmt], cx: &FnCtx) -> R<String> {
 fn term(e: &Expr, cx: &FnCtx) -> R<String> {
     match strip(e) {
         Expr::Block(b) => block_term(&b.block.stmts, cx),
-        Expr::Unsafe(u) => block_term(&u.block.stmts, cx),
+        Expr::Unsafe(u) => Ok(format!("(UnsafeBlk {})", block_term(&u.block.stmts, cx)?)),
         Expr::Tuple(t) if t.elems.is_empty() => Ok("UnitLit".into()),
         Expr::Path(p) => {
             if let Some(q) = &p.qself {
